@@ -18,6 +18,7 @@ LEVEL = "exploration"
 QUICK_JOBS = 2400
 THOROUGH_JOBS = 100000
 WALL_CAP = {"quick": 240.0, "thorough": 3300.0}
+STATE_MEASURE = "distinct (target, route, filter mode, species-set kind, container type) combinations for which a view was created or potable was run"
 READ_ATTRS_COMMON = ["pair", "tabulation", "species", "potential_form", "table_form"]
 FILTERED_SECTIONS = ("Pair", "EAM-Embed", "EAM-Density")
 
@@ -451,6 +452,9 @@ def run_job(job):
         if nontrivial(sc, ref):
             st["keys"].append(short({"m": sc["model"]["sections"], "o": sc["ops"]}, 16))
         _probes(sc, ref, res, bump)
+        for op in sc["ops"]:
+            if op["op"] in ("view", "cli"):
+                bump("state:%s|%s|%s|%s|%s" % (sc["model"]["meta"]["target"], sc["route"], op["mode"], op["setkind"], op.get("container", "argv")))
         for x in v:
             if x["class"] == "HARNESS":
                 st["harness"].append({"seed": s, "detail": x["detail"]})
